@@ -122,6 +122,7 @@ def run(ctx):
                     k += 1
                 ctx.sample({"ops": ops[j:min(k, j + 6)], "impl": impl[j:min(k, j + 6)]})
     driver_stream(ctx)
+    driver_limits(ctx)
     return 0
 
 
@@ -193,9 +194,58 @@ def driver_stream(ctx, only=None):
     return bad
 
 
+def driver_limits(ctx, only=None):
+    """whole-binary tie of the clauses 'no step larger than the configured maximum' and 'a power-of-two fraction of the
+    interval' at the level of the driver that derives the TimeLine's limits from its parameters (maximum timestep,
+    radiation time): every dt the run logs is <= maximum timestep, <= radiation time when one is set, and T / 2^k"""
+    import math, shutil, tempfile
+    import simrun
+    binary = vlib.full_binary()
+    st = ctx.cov["correspondence_streams"].setdefault("driver-limits", {"lines": 0, "mismatches": 0, "oracle_failures": 0})
+    cases = only or [(1024.0, 64.0, 512.0), (1024.0, 128.0, 32.0), (1024.0, 64.0, -1.0)]
+    bad = 0
+    for (total, mx, rad) in cases:
+        param = simrun.hydro_param((1, 1, 1), (True, True, True), cells_per_subgrid=(2, 2, 2), total_time=total, box=(1.e9, 1.e9, 1.e9)).replace(
+            "  do radiation: false\n", "  do radiation: false\n  maximum timestep: %g s\n  radiation time: %g s\n" % (mx, rad))
+        d = tempfile.mkdtemp(prefix="verif_c19l_")
+        try:
+            r = simrun.run_sim(binary, param, ["--task-based-rhd", "--number-of-steps", "12"], threads=1, timeout=120, trace=False, workdir=d)
+        finally:
+            shutil.rmtree(d, ignore_errors=True)
+        ctx.count()
+        ctx.branch("driver-limits-runs")
+        rep = {"stream": "driver-limits", "total_time": total, "maximum_timestep": mx, "radiation_time": rad, "param": param,
+               "cmd": "CMacIonize --params run.param --threads 1 --task-based-rhd --number-of-steps 12"}
+        if r["timed_out"] or r["rc"] != 0:
+            st["oracle_failures"] += 1
+            bad += 1
+            ctx.violation("driver:run-failed", "run with maximum timestep %g s, radiation time %g s ended with %s: %s" % (mx, rad, "a time-out" if r["timed_out"] else "status %d" % r["rc"], r["log"][-300:]), rep)
+            continue
+        steps = step_lines(r["log"])
+        st["lines"] += len(steps)
+        limit = mx if rad <= 0 else min(mx, rad)
+        for (n, t, dt) in steps:
+            try:
+                x = float(dt)
+            except ValueError:
+                continue
+            frac = total / x if x > 0 else 0.0
+            if x > limit * (1 + 2e-5) or x <= 0 or abs(frac - 2.0 ** round(math.log2(frac))) > 2e-5 * frac:   # the log prints 6 significant digits
+                st["oracle_failures"] += 1
+                bad += 1
+                ctx.violation("driver:step-exceeds-configured-limit" if x > limit * (1 + 2e-5) else "driver:step-not-a-power-of-two-fraction",
+                              "pure-hydro run, total time %g s, maximum timestep %g s, radiation time %g s: step %d has dt = %s s (limit %g s)" % (total, mx, rad, n, dt, limit), rep)
+                break
+    return bad
+
+
 def replay(ctx, path):
     import json
     obj = json.load(open(path))
+    if obj.get("stream") == "driver-limits":
+        n = driver_limits(ctx, only=[(obj["total_time"], obj["maximum_timestep"], obj["radiation_time"])])
+        print("REPRODUCED" if n else "not reproduced")
+        return 1 if n else 0
     if obj.get("stream") == "driver-restart":
         n = driver_stream(ctx, only=[(tuple(obj["layout"]), tuple(obj["periodicity"]), obj["total_time"], obj["stop_after"])])
         print("REPRODUCED" if n else "not reproduced")
@@ -204,6 +254,6 @@ def replay(ctx, path):
 
 MANIFEST = dict(
     category="proof",
-    text="Lean theorems over the integer time line for every history of requests (power-of-two step, divides the remainder, <= request and maximum, strictly increasing, never past 2^63, ends exactly, steps sum to the interval, restore = id, largest admissible step); model tied to TimeLine.hpp by exact differential runs (integers and double bit patterns identical) plus the property oracle on the implementation; the restore clause is also run at driver level (whole binary: stop after k steps + restart takes exactly the steps of the uninterrupted run).",
+    text="Lean theorems over the integer time line for every history of requests (power-of-two step, divides the remainder, <= request and maximum, strictly increasing, never past 2^63, ends exactly, steps sum to the interval, restore = id, largest admissible step); model tied to TimeLine.hpp by exact differential runs (integers and double bit patterns identical) plus the property oracle on the implementation; the restore clause and the step limits are also run at driver level (whole binary: stop after k steps + restart takes exactly the steps of the uninterrupted run; every logged dt is a power-of-two fraction and not larger than min(maximum timestep, radiation time)).",
     note="Trusted: Lean kernel + 3 standard axioms; hand model of TimeLine.hpp; exactness of A*2^k in doubles (no underflow); theorems concern the integer clock, the reported double time is only compared; callers stop after advance() returned false; requests >= 0.",
     technique="Lean 4 proof by induction over the request history + exact differential correspondence")
